@@ -19,6 +19,17 @@ fn main() {
         let spec = from_processor_case(&c);
         let mut bytes = build(&spec);
         let exp = &c["exp"];
+        // thread-name entries whose string cannot be read: the entry keeps its place in the stream, its RVA points outside the file
+        {
+            let named: Vec<&Value> = c["threads"].as_array().unwrap().iter().filter(|t| t["named"] != "no").collect();
+            if named.iter().any(|t| t["named"] == "bad") {
+                let (_, _, streams) = vharness::rich::layout(&bytes);
+                let s = streams.iter().find(|s| s.stream_type == 24).expect("thread names stream");
+                for (k, t) in named.iter().enumerate() {
+                    if t["named"] == "bad" { let at = s.rva + 4 + 12 * k + 4; bytes[at..at + 8].copy_from_slice(&0xffff_fff0u64.to_le_bytes()); }
+                }
+            }
+        }
         let stamp: u32 = match c["stamp"].as_str().unwrap_or("zero") { "some" => 1_700_000_000, "max" => u32::MAX, _ => 0 };
         bytes[20..24].copy_from_slice(&stamp.to_le_bytes());     // MINIDUMP_HEADER.time_date_stamp
         rep.evaluations += 1;
@@ -99,7 +110,7 @@ fn main() {
         if fail.is_none() {
             let mods: Vec<String> = state.modules.iter().map(|m| m.code_file().to_string()).collect();
             let unl: Vec<String> = state.unloaded_modules.iter().map(|m| m.code_file().to_string()).collect();
-            if mods != vec!["m1".to_string()] || unl != vec!["u1".to_string(), "u2".to_string(), "u3".to_string()] { fail = Some(("module-lists", json!({"modules": mods, "unloaded": unl}))); }
+            if mods != vec!["m1".to_string(), "mtop".to_string()] || unl != vec!["u1".to_string(), "u2".to_string(), "u3".to_string()] { fail = Some(("module-lists", json!({"modules": mods, "unloaded": unl}))); }
         }
         rep.class(&format!("threads:{}", n));
         if c["exc"]["k"] == "some" { rep.class("with-exception"); }
